@@ -271,14 +271,11 @@ def _run_check(prop, tier, spec, seed, t0, workdir):
     for slug, st in sorted(kf.items()):
         if prop not in st["property"].split(","):
             continue
-        if st["checked"] and st["failed"]:
-            if slug in listed:
-                print("KNOWN-FINDING: property=%s key=%s %s [reproduction: %s]" % (prop, slug, st["what"], st["detail"][:300].replace("\n", " | ")))
-            else:
-                # a repaired (or never listed) defect is back: plain violation
-                rp = os.path.join(workdir, "replays", "%s__TestKFReplay__%s.json" % (prop, slug))
-                json.dump({"property": prop, "test": "TestKFReplay", "slug": slug, "detail": st["detail"]}, open(rp, "w"), indent=1)
-                violations.append((save_replay(prop, rp, "TestKFReplay"), "reproduction %s fails and is not a listed finding: %s" % (slug, st["detail"][:500])))
+        if st["checked"] and st["failed"] and slug not in listed:
+            # a repaired (or never listed) defect is back: plain violation
+            rp = os.path.join(workdir, "replays", "%s__TestKFReplay__%s.json" % (prop, slug))
+            json.dump({"property": prop, "test": "TestKFReplay", "slug": slug, "detail": st["detail"]}, open(rp, "w"), indent=1)
+            violations.append((save_replay(prop, rp, "TestKFReplay"), "reproduction %s fails and is not a listed finding: %s" % (slug, st["detail"][:500])))
 
     # --- phase 2: the generated search -----------------------------------------------
     specs = []
@@ -336,13 +333,17 @@ def _run_check(prop, tier, spec, seed, t0, workdir):
             continue
         inconclusive.append("%s exited with %s\n%s" % (s["name"], rc, tail(s["log"], 40)))
 
-    agg, _ = merge_stats(stats_files, prop)
+    agg, kf = merge_stats(stats_files, prop)
+    # every listed finding whose reproduction still fails and whose switch this run consulted
+    for slug, st in sorted(kf.items()):
+        if st["checked"] and st["failed"] and slug in listed:
+            print("KNOWN-FINDING: property=%s key=%s %s [reproduction: %s]" % (prop, slug, st["what"], st["detail"][:300].replace("\n", " | ")))
     extra = {"processes": len(specs), "tests": [t["run"] for t in spec["tests"]]}
     if short_runs:
         extra["short_rapid_runs"] = short_runs
     if inconclusive:
         extra["inconclusive"] = [i[:500] for i in inconclusive]
-    known = [slug for slug, st in kf.items() if prop in st["property"].split(",") and st["checked"] and st["failed"] and slug in listed]
+    known = sorted(slug for slug, st in kf.items() if st["checked"] and st["failed"] and slug in listed)
     if known:
         extra["known_findings_active"] = known
     write_evidence(prop, tier, seed, spec, agg, time.time() - t0, len(violations), extra)
